@@ -26,6 +26,7 @@ type Shared struct {
 	guards      map[string]*guardInfo // heap key of guarded field -> info
 	mutableGlobal map[*ssa.Global]bool
 	mapValsNonNil map[string]bool
+	pureFuncField map[string]bool
 }
 
 type guardInfo struct {
@@ -39,7 +40,7 @@ type guardInfo struct {
 
 func newShared(ld *Loaded, cs *ContractSet) *Shared {
 	sh := &Shared{ld: ld, addrTaken: map[string]bool{}, fileOf: map[*token.File]*ast.File{}, importNames: map[string]map[string]*types.Package{},
-		mayLockMemo: map[*ssa.Function]bool{}, nonNilField: map[string]bool{}, elemsNonNil: map[string]bool{}, guards: map[string]*guardInfo{}, mapValsNonNil: map[string]bool{}}
+		mayLockMemo: map[*ssa.Function]bool{}, nonNilField: map[string]bool{}, elemsNonNil: map[string]bool{}, guards: map[string]*guardInfo{}, mapValsNonNil: map[string]bool{}, pureFuncField: map[string]bool{}}
 	seenT := map[*types.Package]bool{}
 	packages.Visit(ld.Pkgs, nil, func(p *packages.Package) {
 		if p.Types != nil && !seenT[p.Types] {
